@@ -212,11 +212,10 @@ def run(pid, tier, seed, replay=None):
     if thorough:
         runs = [
             ('mcYA', consts('Y', 'CandA', 'BoundsAll', [0, 1, 2, 3], 'T')),
-            ('mcYB', consts('Y', 'CandB', 'BoundsAll', [0, 1, 2, 3], 'T')),
+            ('mcYB', consts('Y', 'CandB', 'BoundsAll', [1, 2, 3], 'T')),
             ('mcLA', consts('L', 'CandA', 'BoundsAll', [0, 1, 2, 3], 'T')),
-            ('mcLB', consts('L', 'CandB', 'BoundsAll', [0, 1, 2, 3], 'T')),
-            ('mcYC', consts('Y', 'CandC', 'Q', [1, 2, 3], 'Q')),
-            ('mcLC', consts('L', 'CandC', 'Q', [1, 2, 3], 'Q')),
+            ('mcLB', consts('L', 'CandB', 'BoundsAll', [1, 2, 3], 'T')),
+            ('mcYC', consts('Y', 'CandC', 'Q', [1, 2], 'Q')),  # 10 entries, both outcomes at the same instants
             ('mcJA', consts('J', 'CandA', 'Q', [0, 1, 2], 'T')),
             ('mcJB', consts('J', 'CandB', 'Q', [1, 2], 'Q')),
             ('mcApi', consts('Y', 'CandA', 'Q', [0, 1, 2], 'Q', api=True)),
@@ -224,8 +223,8 @@ def run(pid, tier, seed, replay=None):
     else:
         runs = [
             ('mcYA', consts('Y', 'CandA', 'Q', [1, 2], 'Q')),
-            ('mcLA', consts('L', 'CandA', 'Q', [1, 2], 'Q')),
-            ('mcApi', consts('J', 'CandS', 'Q', [0, 1], 'Q', api=True)),
+            ('mcLA', consts('L', 'CandA', 'Q', [1], 'Q')),
+            ('mcApi', consts('Y', 'CandS', 'Q', [0, 1], 'Q', api=True)),
         ]
     for name, cst in runs:
         chk.mc(name, "Chronicle_MC.tla", dict(spec="Spec", constants=cst, invariants=INVS, properties=PROPS), workers=MCW)
@@ -243,15 +242,15 @@ def run(pid, tier, seed, replay=None):
             ('Y', 'genYB', consts('Y', 'CandB', 'BoundsAll', [0, 1, 2, 3], 'T'), 150, 25),
             ('L', 'genLA', consts('L', 'CandA', 'BoundsAll', [0, 1, 2, 3], 'T'), 400, 60),
             ('L', 'genLB', consts('L', 'CandB', 'BoundsAll', [0, 1, 2, 3], 'T'), 150, 25),
-            ('J', 'genJA', consts('J', 'CandA', 'Q', [0, 1, 2], 'T'), 150, 25),
+            ('J', 'genJA', consts('J', 'CandA', 'Q', [0, 1, 2], 'T'), 100, 20),
         ]
-        nrand, nrq = 1000, 80
+        nrand, nrq = 600, 60
     else:
         gens = [
             ('Y', 'genYA', consts('Y', 'CandA', 'Q', [0, 1, 2], 'Q'), 40, 10),
             ('L', 'genLA', consts('L', 'CandA', 'Q', [0, 1, 2], 'Q'), 30, 8),
         ]
-        nrand, nrq = 90, 50
+        nrand, nrq = 60, 40
     jobs = {c: [] for c in SETS}
     tables = {}
     nid = 0
@@ -278,7 +277,7 @@ def run(pid, tier, seed, replay=None):
                 {
                     'calendar': cal,
                     'appends': [[e, when(t, t['at'][e - 1]), 'success' if t['ok'][e - 1] else 'failure'] for e in j['appends']],
-                    'queries': [{'api': bool(q[5]), 'after': when(t, q[0]), 'before': when(t, q[1]), 'limit': q[2], 'succeeded': bool(q[3]), 'now': when(t, q[4])} for q in j['queries'][:2]],
+                    'queries': [{'api': bool(q[5]), 'after': when(t, q[0]), 'before': when(t, q[1]), 'limit': None if q[2] < 0 else q[2], 'succeeded': bool(q[3]), 'now': when(t, q[4])} for q in j['queries'][:2]],
                 }
             )
     # 3 + 4
